@@ -90,147 +90,151 @@ Proof.
   rewrite nth_set_nth_ne by assumption. rewrite Hfs. cbn [of_opt bind]. reflexivity.
 Qed.
 
-Section Step.
-  Variables (st : truf) (from s : nat) (taken fs : list nat).
-  Hypothesis Hinv : sinv st.
-  Hypothesis Hf : dominant st from.
-  Hypothesis Hs : dominant st s.
-  Hypothesis Hne : s <> from.
-  Hypothesis Htk : nth_error (t_sets st) s = Some taken.
-  Hypothesis Hfs : nth_error (t_sets st) from = Some fs.
+(* the premises of one iteration *)
+Definition step_pre (st : truf) (from s : nat) (taken fs : list nat) : Prop :=
+  sinv st /\ dominant st from /\ dominant st s /\ s <> from /\
+  nth_error (t_sets st) s = Some taken /\ nth_error (t_sets st) from = Some fs.
 
-  Local Notation st1 := (cstep st from s taken fs).
+Ltac step_intro :=
+  let P := fresh "P" in
+  intros st from s taken fs P; pose proof P as [Hinv [Hf [Hs [Hne [Htk Hfs]]]]].
 
-  Lemma st1_nsets : nsets st1 = nsets st.
-  Proof. unfold nsets, cstep; cbn [t_sets]. rewrite !length_set_nth. reflexivity. Qed.
+Lemma st1_nsets : forall st from s taken fs, step_pre st from s taken fs -> nsets (cstep st from s taken fs) = nsets st.
+Proof. step_intro. unfold nsets, cstep; cbn [t_sets]. rewrite !length_set_nth. reflexivity. Qed.
 
-  Lemma st1_row : forall i,
-    nth_error (t_sets st1) i =
-    if Nat.eqb i from then Some (sunion fs taken)
-    else if Nat.eqb i s then Some [] else nth_error (t_sets st) i.
-  Proof.
-    intros i. unfold cstep; cbn [t_sets].
+Lemma st1_row : forall st from s taken fs, step_pre st from s taken fs -> forall i,
+  nth_error (t_sets (cstep st from s taken fs)) i =
+  if Nat.eqb i from then Some (sunion fs taken)
+  else if Nat.eqb i s then Some [] else nth_error (t_sets st) i.
+Proof.
+  step_intro.
+  intros i. unfold cstep; cbn [t_sets].
+  destruct (Nat.eqb_spec i from) as [->|Hif].
+  - apply nth_set_nth_eq. rewrite length_set_nth. apply Hf.
+  - rewrite nth_set_nth_ne by congruence.
+    destruct (Nat.eqb_spec i s) as [->|His].
+    + apply nth_set_nth_eq. apply Hs.
+    + apply nth_set_nth_ne. congruence.
+Qed.
+
+Lemma st1_mem : forall st from s taken fs, step_pre st from s taken fs -> forall i u,
+  mem_of (cstep st from s taken fs) i u <->
+  (i = from /\ (mem_of st from u \/ mem_of st s u)) \/ (i <> from /\ i <> s /\ mem_of st i u).
+Proof.
+  step_intro.
+  intros i u. unfold mem_of at 1. split.
+  - intros [l [Hl Hu]]. rewrite (st1_row _ _ _ _ _ P) in Hl.
     destruct (Nat.eqb_spec i from) as [->|Hif].
-    - apply nth_set_nth_eq. rewrite length_set_nth. apply Hf.
-    - rewrite nth_set_nth_ne by congruence.
-      destruct (Nat.eqb_spec i s) as [->|His].
-      + apply nth_set_nth_eq. apply Hs.
-      + apply nth_set_nth_ne. congruence.
-  Qed.
+    + inversion Hl; subst l. apply in_sunion in Hu. left; split; [reflexivity|].
+      destruct Hu as [Hu|Hu]; [left; exists fs|right; exists taken]; auto.
+    + destruct (Nat.eqb_spec i s) as [->|His].
+      * inversion Hl; subst l. destruct Hu.
+      * right. split; [assumption|]. split; [assumption|]. exists l; auto.
+  - intros [[-> H]|[Hif [His [l [Hl Hu]]]]].
+    + exists (sunion fs taken). split; [rewrite (st1_row _ _ _ _ _ P), Nat.eqb_refl; reflexivity|].
+      apply in_sunion. destruct H as [[l [Hl Hu]]|[l [Hl Hu]]].
+      * rewrite Hfs in Hl; inversion Hl; subst l. left; assumption.
+      * rewrite Htk in Hl; inversion Hl; subst l. right; assumption.
+    + exists l. split; [|assumption]. rewrite (st1_row _ _ _ _ _ P).
+      destruct (Nat.eqb_spec i from); [contradiction|].
+      destruct (Nat.eqb_spec i s); [contradiction|]. assumption.
+Qed.
 
-  Lemma st1_mem : forall i u,
-    mem_of st1 i u <->
-    (i = from /\ (mem_of st from u \/ mem_of st s u)) \/ (i <> from /\ i <> s /\ mem_of st i u).
-  Proof.
-    intros i u. unfold mem_of at 1. split.
-    - intros [l [Hl Hu]]. rewrite st1_row in Hl.
-      destruct (Nat.eqb_spec i from) as [->|Hif].
-      + inversion Hl; subst l. apply in_sunion in Hu. left; split; [reflexivity|].
-        destruct Hu as [Hu|Hu]; [left; exists fs|right; exists taken]; auto.
-      + destruct (Nat.eqb_spec i s) as [->|His].
-        * inversion Hl; subst l. destruct Hu.
-        * right. split; [assumption|]. split; [assumption|]. exists l; auto.
-    - intros [[-> H]|[Hif [His [l [Hl Hu]]]]].
-      + exists (sunion fs taken). split; [rewrite st1_row, Nat.eqb_refl; reflexivity|].
-        apply in_sunion. destruct H as [[l [Hl Hu]]|[l [Hl Hu]]].
-        * rewrite Hfs in Hl; inversion Hl; subst l. left; assumption.
-        * rewrite Htk in Hl; inversion Hl; subst l. right; assumption.
-      + exists l. split; [|assumption]. rewrite st1_row.
-        destruct (Nat.eqb_spec i from); [contradiction|].
-        destruct (Nat.eqb_spec i s); [contradiction|]. assumption.
-  Qed.
+Lemma st1_dominant : forall st from s taken fs, step_pre st from s taken fs -> forall d, dominant (cstep st from s taken fs) d <-> dominant st d /\ d <> s.
+Proof.
+  step_intro.
+  intros d. unfold dominant. rewrite (st1_nsets _ _ _ _ _ P). unfold cstep; cbn [t_subs]. rewrite aget_aset.
+  destruct (Nat.eqb_spec d s) as [->|Hds].
+  - split; [intros [_ E]; discriminate|intros [_ E]; congruence].
+  - tauto.
+Qed.
 
-  Lemma st1_dominant : forall d, dominant st1 d <-> dominant st d /\ d <> s.
-  Proof.
-    intros d. unfold dominant. rewrite st1_nsets. unfold cstep; cbn [t_subs]. rewrite aget_aset.
-    destruct (Nat.eqb_spec d s) as [->|Hds].
-    - split; [intros [_ E]; discriminate|intros [_ E]; congruence].
-    - tauto.
-  Qed.
+Lemma st1_dom_to : forall st from s taken fs, step_pre st from s taken fs -> forall t d, dom_to st t d -> dom_to (cstep st from s taken fs) t (if Nat.eqb d s then from else d).
+Proof.
+  step_intro.
+  intros t d [Hg [Hlt Hn]]. unfold dom_to. rewrite (st1_nsets _ _ _ _ _ P). unfold cstep; cbn [t_subs].
+  destruct Hs as [Hslt Hsn]. destruct Hf as [Hflt Hfn].
+  rewrite length_aset. rewrite Hsn.
+  split; [|split].
+  - apply gdom_aset_end; try assumption. congruence.
+  - destruct (Nat.eqb d s); assumption.
+  - destruct (Nat.eqb_spec d s) as [->|Hds].
+    + rewrite aget_aset_ne by congruence. assumption.
+    + rewrite aget_aset_ne by assumption. assumption.
+Qed.
 
-  Lemma st1_dom_to : forall t d, dom_to st t d -> dom_to st1 t (if Nat.eqb d s then from else d).
-  Proof.
-    intros t d [Hg [Hlt Hn]]. unfold dom_to. rewrite st1_nsets. unfold cstep; cbn [t_subs].
-    destruct Hs as [Hslt Hsn]. destruct Hf as [Hflt Hfn].
-    rewrite length_aset. rewrite Hsn.
-    split; [|split].
-    - apply gdom_aset_end; try assumption. congruence.
-    - destruct (Nat.eqb d s); assumption.
-    - destruct (Nat.eqb_spec d s) as [->|Hds].
-      + rewrite aget_aset_ne by congruence. assumption.
-      + rewrite aget_aset_ne by assumption. assumption.
-  Qed.
+Lemma st1_mem_target : forall st from s taken fs, step_pre st from s taken fs -> forall d x, dominant st d -> mem_of st d x ->
+  mem_of (cstep st from s taken fs) (if Nat.eqb d s then from else d) x.
+Proof.
+  step_intro.
+  intros d x Hd Hm. apply (st1_mem _ _ _ _ _ P).
+  destruct (Nat.eqb_spec d s) as [->|Hds].
+  - left; split; [reflexivity|right; assumption].
+  - destruct (Nat.eq_dec d from) as [->|Hdf].
+    + left; split; [reflexivity|left; assumption].
+    + right; auto.
+Qed.
 
-  Lemma st1_mem_target : forall d x, dominant st d -> mem_of st d x ->
-    mem_of st1 (if Nat.eqb d s then from else d) x.
-  Proof.
-    intros d x Hd Hm. apply st1_mem.
-    destruct (Nat.eqb_spec d s) as [->|Hds].
-    - left; split; [reflexivity|right; assumption].
-    - destruct (Nat.eq_dec d from) as [->|Hdf].
-      + left; split; [reflexivity|left; assumption].
-      + right; auto.
-  Qed.
+Lemma st1_mem_old : forall st from s taken fs, step_pre st from s taken fs -> forall i u, mem_of (cstep st from s taken fs) i u -> exists j, mem_of st j u.
+Proof.
+  step_intro.
+  intros i u H. apply (st1_mem _ _ _ _ _ P) in H.
+  destruct H as [[_ [H|H]]|[_ [_ H]]]; eauto.
+Qed.
 
-  Lemma st1_mem_old : forall i u, mem_of st1 i u -> exists j, mem_of st j u.
-  Proof.
-    intros i u H. apply st1_mem in H.
-    destruct H as [[_ [H|H]]|[_ [_ H]]]; eauto.
-  Qed.
-
-  Lemma st1_sinv : sinv st1.
-  Proof.
-    constructor.
-    - intros k f. unfold cstep at 1; cbn [t_subs]. rewrite aget_aset. rewrite st1_nsets.
-      destruct (Nat.eqb_spec k s) as [->|Hks].
-      + intros E; inversion E; subst f. split; [apply Hs|apply Hf].
-      + apply (s_subs_range st Hinv).
-    - unfold cstep; cbn [t_subs]. apply nodup_keys_aset, (s_subs_keys st Hinv).
-    - intros t Ht. rewrite st1_nsets in Ht. destruct (s_subs_dom st Hinv t Ht) as [d Hd].
-      eexists. apply st1_dom_to. exact Hd.
-    - apply concat_nodup_iff. split.
-      + intros i li Hi. rewrite st1_row in Hi.
-        destruct (Nat.eqb i from).
-        * inversion Hi; subst li. apply nodup_sunion.
-          -- eapply concat_nodup_nth; [apply (s_sets_nodup st Hinv)|exact Hfs].
-          -- eapply concat_nodup_nth; [apply (s_sets_nodup st Hinv)|exact Htk].
-        * destruct (Nat.eqb i s).
-          -- inversion Hi; subst li. constructor.
-          -- eapply concat_nodup_nth; [apply (s_sets_nodup st Hinv)|exact Hi].
-      + intros i j li lj x Hi Hj Hxi Hxj.
-        assert (Mi : mem_of st1 i x) by (exists li; auto).
-        assert (Mj : mem_of st1 j x) by (exists lj; auto).
-        apply st1_mem in Mi. apply st1_mem in Mj.
-        pose proof (sinv_mem_disj st Hinv) as Hd.
-        destruct Mi as [[-> Mi]|[Hif [His Mi]]], Mj as [[-> Mj]|[Hjf [Hjs Mj]]].
-        * reflexivity.
-        * exfalso. destruct Mi as [Mi|Mi].
-          -- apply Hjf. symmetry. eapply Hd; eassumption.
-          -- apply Hjs. symmetry. eapply Hd; eassumption.
-        * exfalso. destruct Mj as [Mj|Mj].
-          -- apply Hif. symmetry. eapply Hd; eassumption.
-          -- apply His. symmetry. eapply Hd; eassumption.
-        * eapply Hd; eassumption.
-    - intros k f. unfold cstep at 1; cbn [t_subs]. rewrite aget_aset. rewrite st1_row.
-      destruct (Nat.eqb_spec k s) as [->|Hks].
-      + intros _. destruct (Nat.eqb_spec s from); [contradiction|reflexivity].
-      + intros Hk. destruct (Nat.eqb_spec k from) as [->|Hkf].
-        * destruct Hf as [_ Hfn]. congruence.
-        * apply (s_subsumed_empty st Hinv k f Hk).
-    - intros x i Hi. change (t_ids st1) with (t_ids st) in Hi. rewrite st1_nsets.
-      destruct (s_ids_mem st Hinv x i Hi) as [Hlt [d [Hd Hm]]]. split; [assumption|].
-      exists (if Nat.eqb d s then from else d). split.
-      + apply st1_dom_to; assumption.
-      + apply st1_mem_target; [eapply dom_to_dominant; eassumption|assumption].
-    - intros i x Hm. change (t_ids st1) with (t_ids st).
-      destruct (st1_mem_old i x Hm) as [j Hj]. apply (s_mem_ids st Hinv j x Hj).
-    - change (t_ids st1) with (t_ids st). apply (s_ids_keys st Hinv).
-    - intros d Hd. apply st1_dominant in Hd. destruct Hd as [Hd Hds].
-      destruct (s_nonempty st Hinv d Hd) as [x Hx]. exists x.
-      pose proof (st1_mem_target d x Hd Hx) as H.
-      destruct (Nat.eqb_spec d s); [contradiction|exact H].
-  Qed.
-End Step.
+Lemma st1_sinv : forall st from s taken fs, step_pre st from s taken fs -> sinv (cstep st from s taken fs).
+Proof.
+  step_intro.
+  constructor.
+  - intros k f. unfold cstep at 1; cbn [t_subs]. rewrite aget_aset. rewrite (st1_nsets _ _ _ _ _ P).
+    destruct (Nat.eqb_spec k s) as [->|Hks].
+    + intros E; inversion E; subst f. split; [apply Hs|apply Hf].
+    + apply (s_subs_range st Hinv).
+  - unfold cstep; cbn [t_subs]. apply nodup_keys_aset, (s_subs_keys st Hinv).
+  - intros t Ht. rewrite (st1_nsets _ _ _ _ _ P) in Ht. destruct (s_subs_dom st Hinv t Ht) as [d Hd].
+    eexists. apply (st1_dom_to _ _ _ _ _ P). exact Hd.
+  - apply concat_nodup_iff. split.
+    + intros i li Hi. rewrite (st1_row _ _ _ _ _ P) in Hi.
+      destruct (Nat.eqb i from).
+      * inversion Hi; subst li. apply nodup_sunion.
+        -- eapply concat_nodup_nth; [apply (s_sets_nodup st Hinv)|exact Hfs].
+        -- eapply concat_nodup_nth; [apply (s_sets_nodup st Hinv)|exact Htk].
+      * destruct (Nat.eqb i s).
+        -- inversion Hi; subst li. constructor.
+        -- eapply concat_nodup_nth; [apply (s_sets_nodup st Hinv)|exact Hi].
+    + intros i j li lj x Hi Hj Hxi Hxj.
+      assert (Mi : mem_of (cstep st from s taken fs) i x) by (exists li; auto).
+      assert (Mj : mem_of (cstep st from s taken fs) j x) by (exists lj; auto).
+      apply (st1_mem _ _ _ _ _ P) in Mi. apply (st1_mem _ _ _ _ _ P) in Mj.
+      pose proof (sinv_mem_disj st Hinv) as Hd.
+      destruct Mi as [[-> Mi]|[Hif [His Mi]]], Mj as [[-> Mj]|[Hjf [Hjs Mj]]].
+      * reflexivity.
+      * exfalso. destruct Mi as [Mi|Mi].
+        -- apply Hjf. symmetry. eapply Hd; eassumption.
+        -- apply Hjs. symmetry. eapply Hd; eassumption.
+      * exfalso. destruct Mj as [Mj|Mj].
+        -- apply Hif. symmetry. eapply Hd; eassumption.
+        -- apply His. symmetry. eapply Hd; eassumption.
+      * eapply Hd; eassumption.
+  - intros k f. unfold cstep at 1; cbn [t_subs]. rewrite aget_aset. rewrite (st1_row _ _ _ _ _ P).
+    destruct (Nat.eqb_spec k s) as [->|Hks].
+    + intros _. destruct (Nat.eqb_spec s from); [contradiction|reflexivity].
+    + intros Hk. destruct (Nat.eqb_spec k from) as [->|Hkf].
+      * destruct Hf as [_ Hfn]. congruence.
+      * apply (s_subsumed_empty st Hinv k f Hk).
+  - intros x i Hi. change (t_ids (cstep st from s taken fs)) with (t_ids st) in Hi. rewrite (st1_nsets _ _ _ _ _ P).
+    destruct (s_ids_mem st Hinv x i Hi) as [Hlt [d [Hd Hm]]]. split; [assumption|].
+    exists (if Nat.eqb d s then from else d). split.
+    + apply (st1_dom_to _ _ _ _ _ P); assumption.
+    + apply (st1_mem_target _ _ _ _ _ P); [eapply dom_to_dominant; eassumption|assumption].
+  - intros i x Hm. change (t_ids (cstep st from s taken fs)) with (t_ids st).
+    destruct (st1_mem_old _ _ _ _ _ P i x Hm) as [j Hj]. apply (s_mem_ids st Hinv j x Hj).
+  - change (t_ids (cstep st from s taken fs)) with (t_ids st). apply (s_ids_keys st Hinv).
+  - intros d Hd. apply (st1_dominant _ _ _ _ _ P) in Hd. destruct Hd as [Hd Hds].
+    destruct (s_nonempty st Hinv d Hd) as [x Hx]. exists x.
+    pose proof (st1_mem_target _ _ _ _ _ P d x Hd Hx) as H.
+    destruct (Nat.eqb_spec d s); [contradiction|exact H].
+Qed.
 
 (* ---- the loop *)
 Theorem mm_collapse_spec : mm_collapse_stmt.
@@ -252,11 +256,12 @@ Proof.
     destruct (dominant_row st from Hf) as [fs Hfs].
     rewrite (mm_collapse_cons st from s l taken fs Hne Htk Hfs).
     set (st1 := cstep st from s taken fs).
-    pose proof (st1_sinv st from s taken fs Hinv Hf Hs Hne Htk Hfs) as Hinv1.
-    pose proof (st1_nsets st from s taken fs) as Hn1.
-    pose proof (st1_mem st from s taken fs Hf Hs Htk Hfs) as Hmem1.
-    pose proof (st1_dominant st from s taken fs) as Hdom1.
-    pose proof (st1_dom_to st from s taken fs Hf Hs Hne) as Hdt1.
+    assert (P : step_pre st from s taken fs) by exact (conj Hinv (conj Hf (conj Hs (conj Hne (conj Htk Hfs))))).
+    pose proof (st1_sinv _ _ _ _ _ P) as Hinv1.
+    pose proof (st1_nsets _ _ _ _ _ P) as Hn1.
+    pose proof (st1_mem _ _ _ _ _ P) as Hmem1.
+    pose proof (st1_dominant _ _ _ _ _ P) as Hdom1.
+    pose proof (st1_dom_to _ _ _ _ _ P) as Hdt1.
     fold st1 in Hinv1, Hn1, Hmem1, Hdom1, Hdt1.
     assert (Hf1 : dominant st1 from) by (apply Hdom1; split; [assumption|congruence]).
     assert (Hl1 : forall z, In z l -> dominant st1 z /\ z <> from).
